@@ -2,8 +2,11 @@
 
 Tie to the code:
   * coq/Gen/SchemaTables.v regenerated from every schema module (translate_schema.py); the kernel
-    evaluates wf_row on every regenerated row (Props/C12.v: C12_actual_schema_wf) and computes the
-    list of rows that are not well-formed; each such row is replayed here on the implementation.
+    evaluates wf_row on every regenerated row (Props/C12.v: C12_actual_schema_wf proves
+    wf_schema actual_schema = true, no exception list).  Should a row stop being well-formed the
+    theorem no longer compiles AND the kernel-computed list bad_members actual_schema is replayed
+    row by row on the implementation here (keys tagkey: / none-child: / member-missing: ...), so
+    the defect is reported with a concrete failing input.
   * engine correspondence, for every class: real _to_element_tree() vs Model.Schema.serialise,
     real create_class_from_element_tree vs Model.Schema.parse (also on rearranged / duplicated /
     foreign-extended trees), AttributeValue documents.
@@ -22,8 +25,8 @@ from core import Exn, call
 from schema_gen import Gen, obj_to_coq, obj_to_val, et_to_coq, et_to_val
 
 CLAIM = {
-    "text": "Coq theorems (Props/C12.v) about a generic model of the SamlBase engine over table rows: for EVERY schema S and every instance tree (unbounded depth and cardinalities, hand-written nested induction) whose classes have well-formed rows, parse S (serialise S i) = norm i and serialise S (norm i) = serialise S i where norm only reorders into table order (C12_roundtrip, incl. the AttributeValue typed-text family); known children are emitted in c_child_order order (C12_sequence_order); an unknown child or attribute is kept as extension content and re-emitted (C12_foreign_preserved); and the kernel re-evaluates wf_row on the tables of all ~1156 classes REGENERATED from the working tree on every run (C12_actual_schema_wf: every row outside the kernel-computed list C12_bad_rows is well-formed; ELEMENT_BY_TAG / ELEMENT_FROM_STRING agree). Tie: reflection translator + per-class engine correspondence (serialise, parse incl. shuffled/duplicated/foreign-extended trees) + implementation-level round-trip oracle through to_string()/from_string.",
-    "note": "Trusted: Coq kernel + vm_compute; the reflection translator and name interning; the model of the engine is hand-written and tested against the code for every class on every run. ElementTree's text layer (prefixes, escaping, xmlns handling) is not modelled: it is exercised by the byte-level oracle only. ExtensionElement capture is modelled as the identity on element trees. AttributeValue float/double conversions are not modelled. Ten rows of today's tables are NOT well-formed (xmldsig.KeyInfo.encrypted_key tag key, six classes with a member __init__ never creates, three placeholder child classes None): they are computed by the kernel, excluded from the round-trip theorem, replayed on the implementation and reported as findings.",
+    "text": "Coq theorems (Props/C12.v) about a generic model of the SamlBase engine over table rows: for EVERY schema S and every instance tree (unbounded depth and cardinalities, hand-written nested induction) whose classes have well-formed rows, parse S (serialise S i) = norm i and serialise S (norm i) = serialise S i where norm only reorders into table order (C12_roundtrip, incl. the AttributeValue typed-text family; C12_roundtrip_schema: under wf_schema S only the object-level conditions obj_ok are asked of the instance); known children are emitted in c_child_order order (C12_sequence_order); an unknown child or attribute is kept as extension content and re-emitted (C12_foreign_preserved); and the kernel re-evaluates wf_row on the tables of ALL ~1156 classes REGENERATED from the working tree on every run: wf_schema actual_schema = true with no exception list (C12_actual_schema_wf, C12_no_bad_rows: C12_bad_rows = []), so the round trip holds for every object of every class (C12_roundtrip_actual), each class having such objects (C12_every_class_has_instances); ELEMENT_BY_TAG / ELEMENT_FROM_STRING agree. Tie: reflection translator + per-class engine correspondence (cls(), serialise, parse incl. shuffled/duplicated/foreign-extended trees) + implementation-level round-trip oracle through to_string()/from_string.",
+    "note": "Trusted: Coq kernel + vm_compute; the reflection translator and name interning; the model of the engine is hand-written and tested against the code for every class on every run. ElementTree's text layer (prefixes, escaping, xmlns handling) is not modelled: it is exercised by the byte-level oracle only. ExtensionElement capture is modelled as the identity on element trees. AttributeValue float/double conversions are not modelled. The ten rows that used to be ill-formed (xmldsig.KeyInfo.encrypted_key tag key, three placeholder child classes None, six classes with a member __init__ never creates) are repaired in the library (proposed_fix/C12-1..3); the rows as they were are kept in Model/SchemaBeforeFix.v with witness theorems C12_*_before_fix_refuted. Remaining deviation of the engine, reported as a finding: a saml.AttributeValue built with child elements only gains xsi:nil=true when parsed back (C12_av_nil_deviation).",
     "technique": "machine-checked proof (Coq, nested induction over instance trees) + regenerated-table obligation + per-class model/implementation correspondence + round-trip oracle",
 }
 TRUSTED = [
@@ -31,8 +34,8 @@ TRUSTED = [
     "modelled: create_class_from_element_tree, harvest_element_tree, _convert_element_tree_to_member, _convert_element_attribute_to_member, _add_members_to_element_tree, _to_element_tree, AttributeValueBase.__init__/harvest_element_tree/set_text/set_type; ExtensionElement <-> element tree is modelled as the identity; NOT modelled (tested by the byte-level oracle only): ElementTree.tostring / defusedxml.fromstring",
 ]
 ASSUMPTIONS = [
-    "an attribute that __init__ presets to a non-None default (Attribute.name_format, Scope.regexp, SPCertEnc.verify_depth, KeyAuthority.verify_depth, RelatesTo.relationship_type, PolicyReference.digest_algorithm) is assumed set: an object whose such member was reset to None afterwards parses back with the default (wf_inst clause; lemma C12_default_deviation)",
-    "AttributeValue objects are as the constructor/parser leave them (typed non-empty text, or empty text with xsi:nil first); an empty-text AttributeValue without xsi:nil (e.g. with a NameID extension child) gains xsi:nil=true on the round trip (C12_av_nil_deviation)",
+    "an attribute that __init__ presets to a non-None default (Attribute.name_format, Scope.regexp, SPCertEnc.verify_depth, KeyAuthority.verify_depth, RelatesTo.relationship_type, PolicyReference.digest_algorithm, and after repair C12-2 sslcert.{PublicKeyType_,DigSig,AsymmetricDecryption,AsymmetricKeyAgreement}.key_validation) is assumed set: an object whose such member was reset to None afterwards parses back with the default (obj_ok clause; lemma C12_default_deviation)",
+    "AttributeValue objects are as the constructor/parser leave them (typed non-empty text, or empty text with xsi:nil first); an empty-text AttributeValue without xsi:nil (the constructor makes one when given child elements only, e.g. a NameID) gains xsi:nil=true on the round trip (C12_av_nil_deviation; oracle key av-nil-added:saml.AttributeValue, a known finding)",
     "text is XML-representable (no C0 controls, no CR) in the byte-level oracle; empty text and absent text are identified there",
 ]
 RULE = ("every class x k generated instance trees (one with every declared attribute and child set, the rest random; list cardinalities 0..3, depth <= 3, "
@@ -43,6 +46,9 @@ IMPORTS = "Model.Schema Gen.SchemaTables"
 SER_MODEL = "fun i : inst => show_result show_xtree (serialise actual_schema i)"
 PARSE_MODEL = ("fun p : N * xtree => show_result (show_inst actual_schema) "
                "(parse x_xsi_nil x_xsi_type x_xmlns_xs actual_schema (fst p) (snd p))")
+FRESH_MODEL = ("fun c : N => match find_row actual_schema c with "
+               "Some r => show_inst actual_schema (fresh_inst x_xsi_nil r) | None => VE MODEL_DOMAIN end")
+XSI_NIL = "{http://www.w3.org/2001/XMLSchema-instance}nil"
 REASONS = {1: "tagkey", 2: "none-child", 3: "member-missing", 4: "duplicate-member", 5: "child-order", 6: "row-other"}
 
 
@@ -204,6 +210,38 @@ def oracle_roundtrip(ctx, T, o, bad_classes):
     return None
 
 
+def oracle_av_children_only(ctx, T, gen, cid):
+    """the property on the AttributeValue shape the generic generator does not build: the constructor
+    given child elements only (attribute_converter builds NameID-valued attribute values this way).
+    Returns (key, what, xml) or None."""
+    import saml2_tophat
+    from saml2_tophat import saml, element_to_extension_element
+    cls = T.classes[cid]
+    qn = T.qname[cid]
+    kid = (element_to_extension_element(saml.NameID(text=gen.text(), format=saml.NAMEID_FORMAT_PERSISTENT))
+           if ctx.rng.random() < 0.5 else gen.foreign_elem(1))
+    o = cls(extension_elements=[kid])
+    s1 = o.to_string()
+    o2 = saml2_tophat.create_class_from_xml_string(cls, s1)
+    if o2 is None:
+        return "parse-none:%s" % qn, "from_string(to_string()) is None", s1
+    before, after = dict(o.extension_attributes), dict(o2.extension_attributes)
+    if XSI_NIL not in before and after.get(XSI_NIL) == "true":
+        rest = {k: v for k, v in after.items() if k != XSI_NIL}
+        o2.extension_attributes = rest
+        if first_difference(T, o, o2) is None:
+            return ("av-nil-added:%s" % qn,
+                    "%s(extension_elements=[<%s>]) has no xsi:nil; after from_string(to_string()) extension_attributes is %r and the "
+                    "second serialisation carries xsi:nil=\"true\" next to the child element" % (qn, kid.tag, after), s1)
+        o2.extension_attributes = after
+    d = first_difference(T, o, o2)
+    if d:
+        return "roundtrip-diff:%s.%s" % (d[0], d[1]), "after from_string(to_string()): %s.%s differs: %s" % d, s1
+    if o2.to_string() != s1:
+        return "reserialise:%s" % qn, "second serialisation differs from the first", s1
+    return None
+
+
 # ---------------------------------------------------------------- tree mutations for the parse unit
 def mutations(ctx, T, gen, cid, tree):
     r = ctx.rng
@@ -341,8 +379,22 @@ def run(ctx):
                 ctx.nontriv(ET.tostring(tree))
             if cid % 150 == 0 and j == 0:
                 ctx.sample(dict(cls=qn, xml=schema_gen.describe(T, o, 300)))
+    # cls() of every class is the model's fresh_inst (C12_every_class_has_instances speaks about it)
+    fresh_cases = []
+    for cid in range(len(T.classes)):
+        o = call(T.classes[cid])
+        fresh_cases.append(dict(id="%s()" % T.qname[cid], coq="%d%%N" % cid, impl=o if isinstance(o, Exn) else obj_to_val(T, o),
+                                show=dict(cls=T.qname[cid], case="cls()")))
+    ctx.count("fresh:cls()", len(fresh_cases))
     # AttributeValue family: dedicated documents + constructed objects
     for cid in sorted(gen.av):
+        if T.rows[cid]["tag"]:
+            for _ in range(3 if ctx.quick else 20):
+                res = oracle_av_children_only(ctx, T, gen, cid)
+                ctx.count("oracle:av-children-only" + (":fails" if res else ""))
+                if res:
+                    n_fail += 1
+                    ctx.oracle_fail(res[0], res[1], {"unit": "roundtrip", "class": T.qname[cid], "xml": res[2].decode("utf8") if res[2] else None})
         for t in av_trees(T, cid):
             got = call(saml2_tophat.create_class_from_element_tree, T.classes[cid], t)
             pimpl = got if isinstance(got, Exn) else obj_to_val(T, got)
@@ -359,6 +411,7 @@ def run(ctx):
                 parse_cases.append(dict(id="%s:avobj:%s" % (T.qname[cid], kind), coq="(%d, %s)" % (cid, et_to_coq(T, tree)),
                                         impl=got if isinstance(got, Exn) else obj_to_val(T, got), show=dict(cls=T.qname[cid], kind=kind)))
     ctx.extra["names_interned"] = {"tables": n_gen_names, "with_generated_foreign_names": len(T.names)}
+    corr_retry.correspond(ctx, "fresh", IMPORTS, FRESH_MODEL, "N", fresh_cases, shard=400, timeout=900)
     corr_retry.correspond(ctx, "serialise", IMPORTS, SER_MODEL, "inst", ser_cases, shard=60, timeout=900)
     corr_retry.correspond(ctx, "parse", IMPORTS, PARSE_MODEL, "(N * xtree)", parse_cases, shard=60, timeout=900)
     ctx.count("oracle:roundtrip-failures", n_fail)
